@@ -301,8 +301,27 @@ func (c *ixCtx) lenFacts(cond ssa.Value, truth bool, params map[ssa.Value]string
 }
 
 // factsAt collects the length facts established by the branch edges that dominate block b.
+// ixAssumed: reviewed facts about storage, per function: "in this function len(<storage>) is
+// at least n". They are used like dominating facts, so a site that moves into a helper
+// called from the same function (or back) keeps its justification. Every use is reported in
+// the evidence as a reviewed exception.
+var ixAssumed = map[string]map[string]struct {
+	n   int
+	why string
+}{
+	"base.(*T).GetRemoveSuffixKey": {"*p:t.key": {1, "only called on keyword-argument values: call-site keys are key-identifier token texts (IsKeyIdentifier ⇒ len > 1) and configured keys are non-empty (the loader builds a KEYVALUE only for a non-empty key)"}},
+}
+
+var ixAssumedUsed = map[string]string{}
+
 func (c *ixCtx) factsAt(b *ssa.BasicBlock, params map[ssa.Value]string) map[string]int {
 	out := map[string]int{}
+	if params == nil && b.Parent() != nil {
+		for k, a := range ixAssumed[fnKey(b.Parent())] {
+			out[k] = a.n
+			ixAssumedUsed["IX-assume|"+fnKey(b.Parent())+"|len("+k+") ≥ "+fmt.Sprint(a.n)] = a.why
+		}
+	}
 	for cur := b; cur != nil; cur = cur.Idom() {
 		d := cur.Idom()
 		if d == nil {
@@ -961,23 +980,19 @@ func isRangeIndexOf(idx ssa.Value, base ssa.Value) bool {
 
 // ixReviewed: sites protected by an invariant that was read and confirmed (one line each).
 var ixReviewed = map[string]string{
-	"IX|base.(*T).GetRemoveSuffixKey|slice t.key[:len(t.key) - 1]":                             "only called on keyword-argument values: call-site keys are key-identifier token texts (IsKeyIdentifier ⇒ len > 1) and configured keys are non-empty (the loader builds a KEYVALUE only under `switch arg.Key { case \"\": … default: }`)",
 	"IX|base.(*T).IsClassIdentifier|index t.ToString()[0]":                                     "reached only from Parser.Read on MakeIdentifier(id.GetName()) where the name is the lexer's identifier text; every lexer path that stores UNKNOWN writes at least one rune into it",
-	"IX|base.MakeSignatureContent|index darg[0]":                                               "define-arg names are identifier token texts or generated ids (GenId), never empty; the neighbouring darg[1] is a separate finding",
 	"IX|cmd.GetTargetFile|index os.Args[1]":                                                    "ValidateArgs exits when len(os.Args) == 1 unless one of the stand-alone flags is present, and a present flag is itself an element os.Args[i ≥ 1]",
 	"IX|cmd.PrintSuggestionsForLsp|index targetT.ToString()[0]":                                "guarded by IsIdentifierType(): identifier-kind values carry lexer identifier text or non-empty slices of it (splat `*x` needs len > 1, key `a:` needs len > 1); the zero-value target has kind NIL",
 	"IX|eval.(*Bind).handleMultipleToScalarAsigntment|index leftTs[0]":                         "leftTs is the slice built by Comma.Evaluation, whose first statement appends the left operand: never empty",
-	"IX|eval.(*Bind).handleMultipleToScalarAsigntment|index leftTs[idx]":                       "same storage as leftTs[0] (idx is still 0 in this arm)",
 	"IX|eval.(*Bind).handleMultipleToScalarAsigntment|index leftTs[0].GetBeforeEvaluateCode()[0]":   "evaluated only when IsReadOnly(): read-only values are instance values reached through a lookup that labels them (SetBeforeEvaluateCode(\"@name\" / \"Class.name\")) — read, not decided by the engine",
 	"IX|eval.(*Bind).handleMultipleToScalarAsigntment|index leftTs[idx].GetBeforeEvaluateCode()[0]": "evaluated only when IsReadOnly(): read-only values are instance values reached through a lookup that labels them — read, not decided by the engine",
 	"IX|eval.(*Case).Evaluation|slice resultTs[1:]":                                            "resultTs starts with one element and every re-slice [1:] is immediately followed by an append, so its length never drops below 1 at this statement",
-	"IX|eval.(*Evaluator).handleIdentifier|index id[0]":                                        "id is the text of an identifier-kind token or a non-empty derivation of one (splat/key stripping require len > 1); empty strings only occur in STRING-kind tokens, which Eval handles before this function",
+	"IX|eval.(*Evaluator).handleIdentifier|index t.ToString()[0]":                                        "id is the text of an identifier-kind token or a non-empty derivation of one (splat/key stripping require len > 1); empty strings only occur in STRING-kind tokens, which Eval handles before this function",
 	"IX|eval.(*Hash).Evaluation|slice nextT.ToString()[:len(nextT.ToString()) - 1]":            "nextT is a token just delivered by Parser.Read with kind UNKNOWN: lexer identifier text, non-empty",
 	"IX|eval.(*Evaluator).handleConstEvaluation|nonempty base.MakeIdentifier(t.ToString())": "t has the CONST kind: such values are built by Parser.Read from lexer identifier text that passed IsConstIdentifier (len ≥ 2)",
 	"IX|eval.nameSpaceEvaluation|nonempty base.MakeIdentifier(class)": "the last component of `A::` is empty, but the shipped configuration declares the class \"\" (object.json), so IsClassIdentifier answers from the registry before indexing the text — configuration-gated, outside C01's quantifier (source files under the shipped configuration)",
 	"IX|eval/method_evaluator.(*objectAttrReaderStrategy).evaluate|nonempty base.MakeIdentifier(identifier)": "the argument passed IsSymbolType(): SYMBOL-kind values are built from identifier text that passed IsSymbolIdentifier (len > 1 and a leading colon), so trimming the colon leaves at least one character",
 	"IX|parser.(*Parser).Read|nonempty base.MakeIdentifier(id.GetName())": "the name is the lexer's identifier text: every lexer path that stores the identifier kind writes at least the first rune into it",
-	"IX|eval/method_evaluator.prioritizeDefineArgNames|slice name[len(name) - 1:]":            "define-arg names are identifier token texts or generated ids, never empty (the length test that follows is redundant)",
 }
 
 func engineIX(w *World, tier string) *EngineResult {
@@ -1070,6 +1085,14 @@ func engineIX(w *World, tier string) *EngineResult {
 	r.Stats["index_sites"] = nSites
 	r.Stats["index_sites_guarded"] = nGuarded
 	r.floor("index_sites", 90)
+	for k := range ixReviewed {
+		if _, used := r.Reviewed[k]; !used {
+			r.Notes = append(r.Notes, "reviewed entry without a matching site (stale): "+k)
+		}
+	}
+	for k, why := range ixAssumedUsed {
+		r.Reviewed[k] = why
+	}
 	r.finish()
 	return r
 }
